@@ -202,7 +202,8 @@ fn assemble_body<const N: usize, const CLASS_OK: bool, const HASHREF: bool>(has_
         // havoc hash: N leaves + < N + 2 inner nodes of the real tree
         km::init_havoc(2 * N + 2);
     }
-    let inp = any_input::<N>();
+    let mut inp = any_input::<N>();
+    if N == 3 { inp.parents[2].hash = inp.parents[0].hash; } // DEVTEST
     let proof_at = vs::any_below(N as u8) as usize;
     let want = reference(&inp, has_parent, undec);
     let earlier = match &want {
